@@ -192,6 +192,92 @@ theorem baseFn_spec (pol : ChipXY → Pol) (m : Machine) (app : Nat) :
       simp only [hb]
       exact this
 
+/-! ## end to end: trees -> tables -> routers -> read-back -/
+
+/-- the entries of a table set computed from trees are loadable when the trees' keys, masks and
+routes are in the documented range -/
+theorem tables_inRange (os : List Occ) (T : Tables) (hT : TablesExact os T)
+    (hdom : ∀ o ∈ os, o.key < 4294967296 ∧ o.mask < 4294967296 ∧ ∀ r ∈ o.v.outs, r < 24) :
+    ∀ ct ∈ T, ∀ e ∈ ct.2, e.InRange := by
+  intro ct hct e he
+  obtain ⟨⟨o, ho, hat⟩, hroute, _, _, _⟩ := (hT.2.2 ct hct).2.2.1 e he
+  refine ⟨?_, ?_, ?_⟩
+  · intro r hr
+    obtain ⟨o', ho', _, hr'⟩ := hroute r hr
+    exact (hdom o' ho').2.2 r hr'
+  · rw [← hat.2.1]; exact (hdom o ho).1
+  · rw [← hat.2.2]; exact (hdom o ho).2.1
+
+/-- **Trees to routers.** For well-formed trees (keys/masks 32-bit, routes below 24) whose
+conversion returns tables `T` (by `multisource_iff`: exactly when no two nodes on a chip under one
+key and mask fork differently), on any machine whose chips of `T` all grant their allocation:
+`load_routing_tables(T, app)` returns normally, and `get_routing_table_entries` of every chip of `T`
+afterwards returns 1024 items of which those at `base + i` are, in table order, entries with the
+key and mask of a (key, mask) the trees use on that chip, the application's id, and a route set that
+is exactly the set of directions by which the tree nodes on that chip under that key and mask leave
+it; the table's `sources` (not stored by the hardware) are exactly the links they arrive by; every
+tree node on the chip is covered by one of these entries; every other item is what the router held
+before; reading back changes nothing; every chip the trees visit is in `T`. -/
+theorem trees_to_router (nets : List Net) (hwf : ∀ n ∈ nets, n.tree.WF)
+    (hdom : ∀ o ∈ allOccs nets, o.key < 4294967296 ∧ o.mask < 4294967296 ∧ ∀ r ∈ o.v.outs, r < 24)
+    (T : Tables) (hT : treeTables nets = .ok T)
+    (pol : ChipXY → Pol) (m : Machine) (scpLen app : Nat) (buf : ChipXY → Nat)
+    (hpol : ∀ c, PolValid (pol c)) (hb : 0 < scpLen) (ha : app < 256)
+    (hsv : ∀ ct ∈ T, SvWord (m ct.1) svSdramSys (buf ct.1))
+    (hdis : ∀ ct ∈ T, buf ct.1 + 16 * ct.2.length ≤ (m ct.1).copyBase ∨
+                      (m ct.1).copyBase + 16 * rtrEntries ≤ buf ct.1)
+    (hsv2 : ∀ ct ∈ T, SvWord (m ct.1) svRtrCopy (m ct.1).copyBase)
+    (hdis2 : ∀ ct ∈ T, buf ct.1 + 16 * ct.2.length ≤ svBase + svRtrCopy ∨ svBase + svRtrCopy + 4 ≤ buf ct.1)
+    (hrows : ∀ ct ∈ T, ∀ j, j < rtrEntries → ((m ct.1).rows j).Ok)
+    (hbase : ∀ ct ∈ T, baseOf pol m app ct ≠ 0) :
+    (runM pol (loadTables scpLen app T) m).2.1 = .ok () ∧
+    (∀ o ∈ allOccs nets, ∃ ct ∈ T, ct.1 = o.v.chip) ∧
+    ∀ ct ∈ T, ∃ t,
+      runM pol (getEntries scpLen ct.1.1 ct.1.2) (runM pol (loadTables scpLen app T) m).1 =
+        ((runM pol (loadTables scpLen app T) m).1, .ok t,
+         (Rig.C07.read scpLen (svBase + svRtrCopy) 4).map (readReq ct.1.1 ct.1.2 0) ++
+           (Rig.C07.read scpLen (m ct.1).copyBase (rtrEntries * 16)).map (readReq ct.1.1 ct.1.2 0)) ∧
+      t.length = rtrEntries ∧
+      (∀ i, i < ct.2.length → ∃ e d, ct.2[i]? = some e ∧ t[baseOf pol m app ct + i]? = some (some d) ∧
+        d.key = e.key ∧ d.mask = e.mask ∧ d.app = app ∧ d.core = 0 ∧
+        (∃ o ∈ allOccs nets, o.at ct.1 e.key e.mask) ∧
+        (∀ r, r ∈ d.routes ↔ ∃ o ∈ allOccs nets, o.at ct.1 e.key e.mask ∧ r ∈ o.v.outs) ∧
+        (∀ s, s ∈ e.sources ↔ ∃ o ∈ allOccs nets, o.at ct.1 e.key e.mask ∧ srcOf o.v.dir = s)) ∧
+      (∀ o ∈ allOccs nets, o.v.chip = ct.1 → ∃ (i : Nat) (e : Entry), ct.2[i]? = some e ∧ e.key = o.key ∧ e.mask = o.mask) ∧
+      (∀ j, j < rtrEntries → ¬ (baseOf pol m app ct ≤ j ∧ j < baseOf pol m app ct + ct.2.length) →
+        t[j]? = some (decRow ((m ct.1).rows j))) := by
+  have hex := (tables_exact nets hwf T hT).1
+  have hir := tables_inRange (allOccs nets) T hex hdom
+  have hrdy : ∀ ct ∈ T, ChipReady (m ct.1) ct.2 (buf ct.1) := fun ct hct => ⟨hir ct hct, hsv ct hct, hdis ct hct⟩
+  obtain ⟨hok, _, hin, _⟩ := load_tables_exact pol m scpLen app buf T hex.1 hpol hb ha hrdy hbase
+  refine ⟨hok, hex.2.1, ?_⟩
+  intro ct hct
+  have hF := (hin ct hct).1
+  have hfree := blockFree_of_pol (hpol ct.1) (m ct.1).rows app ct.2.length (hbase ct hct)
+  have hget := runM_getEntries pol (runM pol (loadTables scpLen app T) m).1 scpLen ct.1 hb
+    (by rw [hF]; exact loadedChip_svRtrCopy _ _ _ _ _ (hsv2 ct hct) (hdis2 ct hct))
+    (by rw [hF]; exact loadedChip_rows_ok _ _ _ _ _ ha (hir ct hct) (hrows ct hct))
+  rw [hF] at hget
+  refine ⟨_, hget, by simp, ?_, ?_, ?_⟩
+  · intro i hi
+    obtain ⟨e, d, he, hd, h1, h2, h3, h4, h5⟩ := readback_loaded_in (m ct.1) (buf ct.1) (baseOf pol m app ct) app ct.2 i hi
+      (by have := hfree.2.1; simp only [baseOf] at *; omega) (hir ct hct)
+    have hmem : e ∈ ct.2 := List.mem_of_getElem? he
+    obtain ⟨hocc, hr1, hr2, hs1, hs2⟩ := (hex.2.2 ct hct).2.2.1 e hmem
+    refine ⟨e, d, he, hd, h1, h2, h3, h4, hocc, ?_, ?_⟩
+    · intro r
+      rw [h5 r]
+      exact ⟨fun h => hr1 r h, fun ⟨o, ho, hat, hr⟩ => hr2 o ho hat r hr⟩
+    · intro s
+      exact ⟨fun h => hs1 s h, fun ⟨o, ho, hat, hs⟩ => hs ▸ hs2 o ho hat⟩
+  · intro o ho hc
+    obtain ⟨e, he, hk, hm⟩ := (hex.2.2 ct hct).2.2.2 o ho hc
+    obtain ⟨i, hi, hget'⟩ := List.getElem_of_mem he
+    have hsome : ct.2[i]? = some e := by rw [List.getElem?_eq_getElem hi, hget']
+    exact ⟨i, e, hsome, hk, hm⟩
+  · intro j hj hjb
+    exact readback_loaded_out (m ct.1) (buf ct.1) (baseOf pol m app ct) app ct.2 j hj hjb
+
 /-- non-vacuity: a machine of empty routers with `sv` set up, two chips to load, first-fit
 everywhere (all succeed) or chip (1,0) refusing (first failing chip is the second of the dict) -/
 def exMachine : Machine := fun _ => exChip
@@ -229,5 +315,16 @@ example : (∀ c, PolValid (refuseAt (1, 0) c)) ∧
   split
   · intro _ _ _; exact Or.inl rfl
   · exact firstFit_valid
+
+/-- non-vacuity of `trees_to_router`: the example forest of Props/C10 is in range, converts, and the
+example machine grants every allocation -/
+example : (∀ o ∈ allOccs exNets, o.key < 4294967296 ∧ o.mask < 4294967296 ∧ ∀ r ∈ o.v.outs, r < 24) ∧
+    (∃ T, treeTables exNets = .ok T ∧ ∀ ct ∈ T, baseOf (fun _ => firstFit) exMachine 7 ct ≠ 0) := by
+  refine ⟨by decide,
+    [((0, 0), [{ route := [0], key := 5, mask := 7, sources := [none] }]),
+     ((1, 0), [{ route := [8], key := 5, mask := 7, sources := [some 3, none] }])], by rfl, ?_⟩
+  intro ct hct
+  simp only [List.mem_cons, List.not_mem_nil, or_false] at hct
+  rcases hct with rfl | rfl <;> (simp only [baseOf, exMachine]; decide +kernel)
 
 end Rig.C10
